@@ -373,20 +373,23 @@ class Runner(object):
         """kind 0: m['n'] = val; 1: m['trail'] gets val (key set the first time, nested list append afterwards);
         2: arr.append(val)  -- all three IN PLACE on the tracked value Pony returns;  3: m re-assigned as a whole.
         The reference model row is changed the same way."""
+        # fetch the tracked value first: reading it may load the object, and that query may auto-flush and run hooks
+        # which change the reference model; only then look at the model and apply the same edit on both sides
+        tracked = obj.arr if kind == 2 else obj.m if kind in (0, 1) else None
         row = self.cur.row(handle)
         m, arr = row.setdefault('m', {}), row.setdefault('arr', [])
         if kind == 0:
-            obj.m['n'] = val
+            tracked['n'] = val
             m['n'] = val
         elif kind == 1:
             if 'trail' in m:
-                obj.m['trail'].append(val)
+                tracked['trail'].append(val)
                 m['trail'].append(val)
             else:
-                obj.m['trail'] = [val]
+                tracked['trail'] = [val]
                 m['trail'] = [val]
         elif kind == 2:
-            obj.arr.append(val)
+            tracked.append(val)
             arr.append(val)
         else:
             new = dict(copy.deepcopy(m), r=val)
